@@ -518,7 +518,30 @@ func (v *Value) EqualValueTo(other *Value) bool {
 	// be used here: https://pkg.go.dev/reflect#Value.Comparable
 	return v.val.CanInterface() && other.val.CanInterface() &&
 		v.val.Type().Comparable() && other.val.Type().Comparable() &&
-		v.Interface() == other.Interface()
+		interfacesEqual(v.Interface(), other.Interface())
+}
+
+// interfacesEqual is a == b, except that values whose type is comparable
+// while their content is not (an interface field or array element that holds
+// a slice, map or function) are not equal to anything (instead of a panic).
+func interfacesEqual(a, b any) (equal bool) {
+	defer func() {
+		if recover() != nil {
+			equal = false
+		}
+	}()
+	return a == b
+}
+
+// mapIndex is reflect's MapIndex, except that a key whose type can be hashed
+// while its content cannot (see interfacesEqual) is just not in the map.
+func mapIndex(m, key reflect.Value) (value reflect.Value) {
+	defer func() {
+		if recover() != nil {
+			value = reflect.Value{}
+		}
+	}()
+	return m.MapIndex(key)
 }
 
 type sortedKeys []reflect.Value
